@@ -9,8 +9,13 @@
 -/
 import DiplomatModel.CppGen
 import DiplomatModel.Props.C16
+import DiplomatModel.Props.C01
+import DiplomatModel.CppMethod
+import DiplomatModel.Lemmas.Cpp
 namespace DiplomatModel.Props.C02
-open DiplomatModel.Lower DiplomatModel.AbiGen DiplomatModel.CppGen
+open DiplomatModel.Lower DiplomatModel.AbiGen DiplomatModel.CppGen DiplomatModel.CppMethod
+open DiplomatModel.Props.C05 (InOk)
+open DiplomatModel.Props.C01 (has128 isOpaque_named cPrim_some derived_some)
 
 /-! ### the guard list -/
 
@@ -107,5 +112,145 @@ def mEx : AMethod := ⟨"m", none, [("a", .strRef (some .anon) .utf8 .std), ("b"
 example : guardedParams mEx = ["a", "c"] ∧ wrapsUtf8 mEx = true := by decide
 example : (wrapper [true, false] [.str [0xff], .other 1] (fun _ => 7)).2 = 0 := by decide
 example : (wrapper [true, false] [.str [0x41], .other 1] (fun _ => 7)).2 = 1 := by decide
+
+/-! ### the generated method implementation (`CppMethod`, exact-text tie `cpp-method`) -/
+
+/-- **The two models of the guard agree**: the parameters `methodImpl` prints a validation for are the guard
+    list of `CppGen` (the write buffer, which is not a C++ parameter, is never validated). -/
+theorem guards_agree (m : AMethod) :
+    ((cppParams m).filter fun p => isUtf8Param p.2).map (·.1) = guardedParams m := by
+  unfold cppParams guardedParams
+  rw [List.filter_filter]
+  congr 1
+  apply List.filter_congr
+  intro p _
+  cases h : p.2 <;> simp [isUtf8Param, isUtf8Str]
+  rename_i lt e sd
+  cases e <;> simp
+
+/-- **Every parameter type the gate lets through has a C++ type and a conversion to C.** (128-bit integers have
+    no C spelling; callbacks are covered by the tie only.) -/
+theorem cpp_param_total_partial (env : Env) (sup : Support) (t : TyName) (x : String)
+    (h : InOk env sup false t) (h128 : has128 t = false) (hfn : ∀ ps r, t ≠ .fn ps r) :
+    (cppTyName env t).isSome = true ∧ (cppToC env t x).isSome = true := by
+  cases h with
+  | prim _ p =>
+    obtain ⟨c, hc, _⟩ := cPrim_some p (by simpa [has128] using h128)
+    simp [cppTyName, cppToC, cppToCPlain, hc]
+  | struct _ n fields hg hne => simp [cppTyName, cppToC, cppToCPlain, hg]
+  | enum _ n hg => simp [cppTyName, cppToC, cppToCPlain, hg]
+  | refOpaque _ lt m t ho =>
+    obtain ⟨n, rfl, hn⟩ := isOpaque_named ho
+    simp [cppTyName, cppToC, cppToCPlain, hn]
+  | optRefOpaque _ lt m t ho =>
+    obtain ⟨n, rfl, hn⟩ := isOpaque_named ho
+    simp [cppTyName, cppToC, hn]
+  | optNamed _ n sd hno _ _ hin =>
+    cases hin with
+    | struct _ _ fields hg hne => simp [cppTyName, cppToC, cppToCPlain, capiOpt, cTy, hg]
+    | enum _ _ hg => simp [cppTyName, cppToC, cppToCPlain, capiOpt, cTy, hg]
+  | optPrim _ p sd _ _ =>
+    obtain ⟨c, hc, _⟩ := cPrim_some p (by simpa [has128] using h128)
+    obtain ⟨d, hd, _⟩ := derived_some p (by simpa [has128] using h128)
+    simp [cppTyName, cppToC, cppToCPlain, capiOpt, cTy, hc, hd]
+  | optStrs _ e s sd _ => simp [cppTyName, cppToC, cppToCPlain, capiOpt, cTy]
+  | optStr _ lt e s sd _ _ => simp [cppTyName, cppToC, cppToCPlain, capiOpt, cTy]
+  | optSlice _ ltm p s sd _ _ =>
+    obtain ⟨c, hc, _⟩ := cPrim_some p (by simpa [has128] using h128)
+    obtain ⟨d, hd, _⟩ := derived_some p (by simpa [has128] using h128)
+    simp [cppTyName, cppToC, cppToCPlain, capiOpt, cTy, hc, hd]
+  | str _ lt e sd _ => simp [cppTyName, cppToC, cppToCPlain]
+  | strs _ e sd => simp [cppTyName, cppToC, cppToCPlain]
+  | slice _ ltm p sd _ =>
+    obtain ⟨c, hc, _⟩ := cPrim_some p (by simpa [has128] using h128)
+    simp [cppTyName, cppToC, cppToCPlain, hc]
+  | callback ps r _ _ _ => exact absurd rfl (hfn ps r)
+
+/-- **One argument per C parameter.** With at most one `DiplomatWrite` parameter (the gate allows it only as the
+    last one), the call the wrapper makes passes exactly as many arguments as the C prototype declares: `self`,
+    one per parameter, and the write buffer. -/
+theorem cpp_args_match_c_params (env : Env) (pfx owner : String) (m : AMethod) (args : List String)
+    (ps : List (String × CTy))
+    (hw : (m.params.filter fun p => match p.2 with | .write => true | _ => false).length ≤ 1)
+    (ha : cppArgs env m = some args) (hc : cParams env pfx owner m = some ps) :
+    args.length = ps.length := by
+  unfold cppArgs at ha
+  unfold cParams at hc
+  cases hconv : optMapM (fun p : String × TyName => cppToC env p.2 p.1) (cppParams m) with
+  | none => simp [hconv] at ha
+  | some conv =>
+    simp only [hconv, Option.some.injEq] at ha
+    cases hs : cSelf env owner m with
+    | none => simp [hs] at hc
+    | some sl =>
+      cases hp : optMapM (cParam1 env (abiName pfx owner m.name)) m.params with
+      | none => simp [hs, hp] at hc
+      | some pl =>
+        simp only [hs, hp, Option.some.injEq] at hc
+        subst ha; subst hc
+        have h1 : conv.length = (cppParams m).length := optMapM_length _ _ _ hconv
+        have h2 : pl.length = m.params.length := optMapM_length _ _ _ hp
+        have h3 : sl.length = if m.self.isSome then 1 else 0 := by
+          unfold cSelf at hs
+          cases hself : m.self with
+          | none => simp [hself] at hs; subst hs; rfl
+          | some s =>
+            simp only [hself, Option.map_eq_some_iff] at hs
+            obtain ⟨c, _, rfl⟩ := hs; rfl
+        have h4 : (cppParams m).length + (m.params.filter fun p => match p.2 with | .write => true | _ => false).length
+            = m.params.length := by
+          unfold cppParams
+          apply filter_partition_length
+          intro p
+          cases p.2 <;> rfl
+        have h5 : hasWriteParam m = true ↔ 1 ≤ (m.params.filter fun p => match p.2 with | .write => true | _ => false).length := by
+          unfold hasWriteParam
+          rw [List.any_eq_true]
+          constructor
+          · rintro ⟨p, hp, hq⟩
+            exact List.length_pos_of_mem (List.mem_filter.mpr ⟨hp, hq⟩)
+          · intro h
+            obtain ⟨p, hp⟩ := List.exists_mem_of_length_pos h
+            exact ⟨p, (List.mem_filter.mp hp).1, (List.mem_filter.mp hp).2⟩
+        simp only [List.length_append, h1, h2, h3]
+        generalize (m.params.filter fun p => match p.2 with | .write => true | _ => false).length = w at hw h4 h5
+        cases hwp : hasWriteParam m with
+        | true =>
+          have := h5.mp hwp
+          cases m.self.isSome <;> simp <;> omega
+        | false =>
+          have : ¬ 1 ≤ w := fun h => by simp [h5.mpr h] at hwp
+          cases m.self.isSome <;> simp <;> omega
+
+/-- **Which arm comes back.** For a method returning `Result<T, E>` the wrapper's return expression is a
+    conditional on the C result's `is_ok`: the `Ok` constructor in the true branch, `Err` in the false branch. -/
+theorem fallible_return_shape (env : Env) (ok : Succ) (err : Option TyName) (e : String)
+    (h : cToCppRet env (.fallible ok err) "result" = some (some e)) :
+    ∃ res o er oc ec, e = "result.is_ok ? " ++ res ++ "(diplomat::Ok<" ++ o ++ ">(" ++ oc ++ ")) : " ++ res
+        ++ "(diplomat::Err<" ++ er ++ ">(" ++ ec ++ "))" := by
+  unfold cToCppRet at h
+  simp only at h
+  split at h
+  · rename_i o er oc ec _ _ _ _
+    simp only [Option.some.injEq] at h
+    exact ⟨_, o, er, oc, ec, h.symm⟩
+  · simp at h
+
+/-- for a method returning `Option<T>` (not a pointer): engaged exactly in the `is_ok` branch -/
+theorem nullable_return_shape (env : Env) (s : Succ) (e : String)
+    (h : cToCppRet env (.nullable s) "result" = some (some e)) :
+    ∃ n c, e = "result.is_ok ? std::optional<" ++ n ++ ">(" ++ c ++ ") : std::nullopt" := by
+  unfold cToCppRet at h
+  simp only at h
+  split at h
+  · rename_i n c _ _
+    simp only [Option.some.injEq] at h
+    exact ⟨n, c, h.symm⟩
+  · simp at h
+
+/-- non-vacuity: a concrete method renders, with a validated parameter, an optional and a result -/
+example : (methodImpl [("Opa", .opaqueTy), ("En", .enumTy)] "c3_" "Opa"
+    ⟨"m", some ⟨true, .anon, false⟩, [("s", .strRef (some .anon) .utf8 .std), ("x", .opt (.prim .u8) .std)],
+      some (.res (.box (.named "Opa")) (.named "En") .std)⟩).isSome = true := by decide
 
 end DiplomatModel.Props.C02
